@@ -122,9 +122,14 @@ fn args_map() -> (String, BTreeMap<String, String>) {
     let mut m = BTreeMap::new();
     let mut pending: Option<String> = None;
     for a in it {
-        if let Some(k) = pending.take() {
-            m.insert(k, a);
+        if let (Some(k), false) = (pending.as_ref(), a.starts_with("--")) {
+            m.insert(k.clone(), a);
+            pending = None;
         } else if let Some(k) = a.strip_prefix("--") {
+            // a flag without a value followed by another option
+            if let Some(prev) = pending.take() {
+                m.insert(prev, "1".into());
+            }
             pending = Some(k.to_string());
         } else {
             m.insert("_".into(), a);
